@@ -2004,22 +2004,20 @@ func (r stack) traverse(indices ...int) (slice any, ok, done bool) {
 			return
 		}
 
-		// begin "walking" path of int breadcrumbs ...
-		for i := 0; i < len(indices); i++ {
+		// Only the first path element addresses the receiver: the
+		// helpers below consume the remainder by recursing into the
+		// Stack (or Stack-bearing Condition) found there. A failed
+		// descent ends the walk; it must not be retried against a
+		// sibling of the receiver using the next path element.
+		current := indices[0] // user-facing index number w/ offset
 
-			current := indices[i] // user-facing index number w/ offset
+		if instance, _, found := r.index(current); found {
 
-			if instance, _, found := r.index(current); found {
-
-				// Begin assertion of possible traversable and non-traversable
-				// values. We'll go as deep as possible, provided each nesting
-				// instance is a Stack/Stack alias, or Condition/Condition alias
-				// containing a Stack/Stack alias value.
-				if slice, ok, done = r.traverseAssertionHandler(instance, i, indices...); !done {
-					continue
-				}
-			}
-			break
+			// Begin assertion of possible traversable and non-traversable
+			// values. We'll go as deep as possible, provided each nesting
+			// instance is a Stack/Stack alias, or Condition/Condition alias
+			// containing a Stack/Stack alias value.
+			slice, ok, done = r.traverseAssertionHandler(instance, 0, indices...)
 		}
 	}
 
